@@ -51,6 +51,7 @@ func checkC37(c *core.Ctx) {
 	ruleQueryParamsKeys(c)
 	ruleSortOrderOnlyWhenGiven(c)
 	ruleTemplateResolutionStateless(c)
+	ruleCallerBindingWins(c)
 }
 
 type queryArm struct {
